@@ -19,7 +19,7 @@ Theorem C03_shared_tables_that_leave_their_package_variable : aliased_globals = 
 Proof. exact shared_tables_that_leave_their_package_variable. Qed.
 Print Assumptions C03_shared_tables_that_leave_their_package_variable.
 
-Theorem C03_places_where_map_order_can_show : map_order_sinks = ["core.Dict.Keys: append keys"%string; "core.Dict.String: append parts"%string; "epubdoc.Reader.findNCX: early return"%string; "epubdoc.Reader.findNavDocument: early return"%string; "reader.Reader.ExtractPageImages: append images"%string; "reader.Reader.ResolveDeep: early return"%string; "resolver.ObjectResolver.resolve: early return"%string; "tables.DetectorRegistry.List: append names"%string].
+Theorem C03_places_where_map_order_can_show : map_order_sinks = ["core.Dict.Keys: append keys"%string; "core.Dict.String: append parts"%string; "epubdoc.Reader.findNCX: early return"%string; "epubdoc.Reader.findNavDocument: early return"%string; "reader.Reader.ExtractPageImages: append images"%string; "reader.Reader.resolveDeep: early return"%string; "resolver.ObjectResolver.resolve: early return"%string; "tables.DetectorRegistry.List: append names"%string].
 Proof. exact places_where_map_order_can_show. Qed.
 Print Assumptions C03_places_where_map_order_can_show.
 
